@@ -84,10 +84,32 @@ fn run_once_policy(data: &Path, dump: &Path, coin_name: &str, cb: &str, prefix: 
         unsafe { libc::_exit(0) };
     }
     let mut status: libc::c_int = 0;
+    // An execution under the controlled scheduler takes milliseconds. One that does not come back within the limit has a
+    // thread blocked on a primitive the scheduler does not own (e.g. a std Mutex held across a parallel region) while it
+    // holds the baton: the model cannot continue such an execution and cannot tell a real deadlock from a wait that another
+    // OS thread would end, so this is reported as a machinery error (no verdict); real deadlocks of that kind are looked for
+    // by the free-running pass against the real rayon, whose watchdog judges a run whose threads are all asleep.
+    let limit = std::time::Duration::from_secs(std::env::var("VERIF_SCHED_EXEC_LIMIT").ok().and_then(|v| v.parse().ok()).unwrap_or(if workers > 0 && policy > 0 { 600 } else { 60 }));
+    let t0 = std::time::Instant::now();
+    let mut spins = 0u32;
     loop {
-        let r = unsafe { libc::waitpid(pid, &mut status, 0) };
+        let r = unsafe { libc::waitpid(pid, &mut status, libc::WNOHANG) };
         if r == pid || (r < 0 && std::io::Error::last_os_error().raw_os_error() != Some(libc::EINTR)) {
             break;
+        }
+        spins += 1;
+        if spins > 200 {
+            std::thread::sleep(std::time::Duration::from_micros(if spins > 2000 { 2000 } else { 200 }));
+        } else {
+            std::thread::yield_now();
+        }
+        if t0.elapsed() > limit {
+            unsafe {
+                libc::kill(pid, libc::SIGKILL);
+                libc::waitpid(pid, &mut status, 0);
+            }
+            println!("MACHINERY-ERROR C13 scheduler model: the execution of {} under schedule {:?} (workers {}, policy {}) did not return within {:?}: a thread is blocked on a primitive the scheduler does not own", cb, prefix, workers, policy, limit);
+            std::process::exit(2);
         }
     }
     let files = refmodel::run::read_dir_files(dump);
@@ -445,8 +467,27 @@ fn c13() -> Report {
             }
         }
         let mut per_cb: BTreeMap<String, (u64, u64, BTreeSet<String>)> = BTreeMap::new();
+        let world_deadline = std::time::Instant::now() + std::time::Duration::from_secs(std::env::var("VERIF_SCHED_WORLD_LIMIT").ok().and_then(|v| v.parse().ok()).unwrap_or(1500));
         for (mut ch, op) in children {
-            let st = ch.wait();
+            // wall cap inside the engine: a worker whose execution in flight never returns (a thread blocked, with the baton, on a
+            // primitive the scheduler does not own) is ended and reported as a machinery error naming that schedule - no verdict
+            let st = loop {
+                match ch.try_wait() {
+                    Ok(Some(s)) => break Ok(s),
+                    Ok(None) if std::time::Instant::now() > world_deadline => {
+                        let _ = ch.kill();
+                        let _ = ch.wait();
+                        let inflight = std::fs::read_to_string(format!("{}.inflight", op.display())).unwrap_or_default();
+                        rep.machinery(format!("{}: a worker did not finish within the wall cap; execution in flight: {} (blocked on a primitive the scheduler model does not own?)", w.name, inflight));
+                        break Err(std::io::Error::new(std::io::ErrorKind::TimedOut, "wall cap"));
+                    }
+                    Ok(None) => std::thread::sleep(std::time::Duration::from_millis(5)),
+                    Err(e) => break Err(e),
+                }
+            };
+            if matches!(&st, Err(e) if e.kind() == std::io::ErrorKind::TimedOut) {
+                continue;
+            }
             if !st.as_ref().map(|s| s.success()).unwrap_or(false) {
                 // the execution in flight ended the worker process (the driver's process::exit, an abort, a crash): that
                 // schedule's outcome is "the run terminated", which differs from schedule []'s
